@@ -121,6 +121,18 @@ impl CidQueue {
         self.offset
     }
 
+    /// Ring slots in storage order (connection ID bytes) and the cursor, for the verification harness
+    #[cfg(feature = "__verif")]
+    pub(crate) fn verif_slots(&self) -> (Vec<Option<Vec<u8>>>, usize) {
+        (
+            self.buffer
+                .iter()
+                .map(|x| x.map(|(cid, _)| cid.to_vec()))
+                .collect(),
+            self.cursor,
+        )
+    }
+
     pub(crate) const LEN: usize = 5;
 }
 
